@@ -49,3 +49,44 @@ Print Assumptions C10_operator_language_len3.
 
 Example C10_sweep_nonvacuous : length (words 3) = 16276%nat /\ pseudo_whole coll_38 [58;61] = true /\ pseudo_whole coll_36 [58;61] = false.
 Proof. vm_compute. repeat split. Qed.
+
+(* ---- numbers: the NUMBER token language equals the language reference (section 2.4.5-2.4.7) on ALL strings
+   of length <= 4 over a 16-letter alphabet that contains every character class the number grammar distinguishes ---- *)
+Definition cs (l : list (N * N)) : re := CSet false l.
+Definition digit := cs [(48,57)].
+Definition us_opt (d : re) : re := Cat d (Star (Cat (Opt (Chr 95)) d)).        (* d (["_"] d)* *)
+Definition digitpart := us_opt digit.
+Definition decinteger := Alt (Cat (cs [(49,57)]) (Star (Cat (Opt (Chr 95)) digit))) (Cat (Plus (Chr 48)) (Star (Cat (Opt (Chr 95)) (Chr 48)))).
+Definition prefixed (letters : list (N * N)) (d : re) : re := Cat (Chr 48) (Cat (cs letters) (Plus (Cat (Opt (Chr 95)) d))).
+Definition integer := Alt decinteger (Alt (prefixed [(98,98);(66,66)] (cs [(48,49)]))
+                      (Alt (prefixed [(111,111);(79,79)] (cs [(48,55)])) (prefixed [(120,120);(88,88)] (cs [(48,57);(97,102);(65,70)])))).
+Definition fraction := Cat (Chr 46) digitpart.
+Definition pointfloat := Alt (Cat (Opt digitpart) fraction) (Cat digitpart (Chr 46)).
+Definition exponent := Cat (cs [(101,101);(69,69)]) (Cat (Opt (cs [(43,43);(45,45)])) digitpart).
+Definition exponentfloat := Cat (Alt pointfloat digitpart) exponent.
+Definition floatnumber := Alt exponentfloat pointfloat.
+Definition imagnumber := Cat (Alt floatnumber digitpart) (cs [(106,106);(74,74)]).
+Definition number_ref := Alt imagnumber (Alt floatnumber integer).
+
+Definition num_alphabet : list N := [48;49;55;57;95;46;101;69;106;120;98;111;97;102;43;45].
+Fixpoint words_over (a : list N) (n : nat) : list (list N) :=
+  match n with O => [[]] | S k => [] :: flat_map (fun w => map (fun c => c :: w) a) (words_over a k) end.
+
+(* the tokenizer calls a pseudo_token match a NUMBER when it starts with a digit, or with a dot and is neither . nor ... *)
+Definition is_number_token (c : coll) (w : list N) : bool :=
+  pseudo_whole c w &&
+  match w with
+  | x :: _ => ((48 <=? x) && (x <=? 57)) || ((x =? 46) && negb (str_eqb w [46]) && negb (str_eqb w [46;46;46]))
+  | [] => false
+  end.
+
+Definition number_sweep (c : coll) : bool :=
+  forallb (fun w => Bool.eqb (is_number_token c w) (full_match number_ref w)) (words_over num_alphabet 4).
+
+Theorem C10_number_language_len4 : forallb (fun '(v, c) => number_sweep c) colls = true.
+Proof. vm_compute. reflexivity. Qed.
+Print Assumptions C10_number_language_len4.
+Example C10_number_sweep_nonvacuous :
+  is_number_token coll_38 [48;57;106] = true /\ is_number_token coll_38 [48;95;49;106] = true /\ is_number_token coll_38 [48;57] = false
+  /\ is_number_token coll_38 [49;95;48] = true /\ is_number_token coll_38 [49;101;45;49] = true.
+Proof. vm_compute. repeat split. Qed.
